@@ -176,6 +176,8 @@ class Engine(object):
             return []
         seen = set()
         arrays = []
+        ufapps = []
+        ufsigs = set()
         varmemo = {}
 
         def has_var(t):
@@ -203,6 +205,13 @@ class Engine(object):
             if z3.is_app(t):
                 if t.sort().kind() == z3.Z3_ARRAY_SORT and not has_var(t):
                     arrays.append(t)
+                if t.num_args() > 0 and t.decl().kind() == z3.Z3_OP_UNINTERPRETED and \
+                        t.decl().name().startswith('u_') and not has_var(t):
+                    sig = (t.decl().name(), tuple(t.arg(k).get_id() for k in range(t.num_args())
+                                                  if t.arg(k).sort() != z3.IntSort()))
+                    if sig not in ufsigs:
+                        ufsigs.add(sig)
+                        ufapps.append(t)
                 for c in t.children():
                     walk(c)
         for c in list(pc) + [goal]:
@@ -211,6 +220,29 @@ class Engine(object):
         arrays.sort(key=lambda a: (0 if a.sort().range() == z3.BoolSort() else 1,
                                    1 if str(a.decl()).startswith('H.') else 0))
         hints = []
+        # neighbours: spec functions with an integer argument are also mentioned at sk-1, sk, sk+1
+        # (invariants over consecutive indices such as bk(j-1) / bk(j) need these instances)
+        if ufapps:
+            done = set()
+            for skc in skolems:
+                if skc.sort() != z3.IntSort():
+                    continue
+                for app in ufapps[:12]:
+                    d = app.decl()
+                    for pos in range(app.num_args()):
+                        if app.arg(pos).sort() != z3.IntSort():
+                            continue
+                        for delta in (-1, 0, 1):
+                            args2 = [app.arg(k) for k in range(app.num_args())]
+                            args2[pos] = skc + delta if delta else skc
+                            t = d(*args2)
+                            key = (d.name(), pos, delta, tuple(x.get_id() for x in args2 if x is not args2[pos]), skc.get_id())
+                            if key in done:
+                                continue
+                            done.add(key)
+                            rs = t.sort()
+                            f = z3.Function('hint!%s' % str(rs).replace(' ', '_'), rs, z3.BoolSort())
+                            hints.append(f(t))
         for skc in skolems:
             for a in arrays:
                 if a.sort().domain() == skc.sort() and not z3.is_store(a):
